@@ -10,7 +10,10 @@ package main
 //   query  : q/<from>/<size>/<start>/<end>/<filterRPN>[/<stage>]
 //            w                wait until the background write of persistent-query results has finished (no answer)
 //            filterRPN ::= item{,item}; item ::= all | c:<field>:<op>:<lit> | and | or | not ; lit ::= i… | d… | s<hex> | w<hex>
-//            stage ::= recs | stats:<agg+agg>:<by+by|-> | tc:<spanMs>:<agg+agg>:<by|->     agg ::= count | sum.f | min.f | max.f | avg.f | dc.f
+//            stage ::= recs | stats:<agg+agg>:<by+by|-> | tc:<spanMs>:<agg+agg>:<by|->     agg ::= count | sum.f | min.f | max.f | avg.f | dc.f | cnt.f (= count(f))
+//                    | pstats:… | ptc:…   the same command behind `| eval verif_pp=1`: the engine then runs it in the stats /
+//                                         timechart PROCESSOR of the pipeline instead of the search stage (same meaning, C06)
+//                    | where:<field>:<op>:<lit>   `| where <field><op><lit>` (answer: ids)
 // Exec runs the history and the queries in a fresh worker process (one dataset per process) through
 // the public entry points and prints one canonical segment per query; the Lean Oracle prints the
 // SPECIFICATION's answer for the same line; lib/runner.py compares them (mode e2e).
@@ -36,6 +39,12 @@ func init() {
 		p := p
 		gen := func(r *rand.Rand, n int, tier string) []string { return genE2E(r, n, tier, p) }
 		rule := "datasets of 1..40 events over typed columns (int, dyadic decimal, mixed, text, numeric text, sparse, bool, late) × random batch/flush/rotate histories × queries of profile " + p + "; each case runs in its own engine process; non-trivial = ≥3 events and ≥1 query"
+		if p == "c02" || p == "c03" {
+			rule += "; literal and column of different kinds by construction: quoted numbers against numbers, numeric text and text, text against numbers and booleans, wildcards against numbers, numeric text at the edges of the number grammar (+5, 1E2, 5., .5, 1e, -, e5, 0x10, nan, 1_000), a column mixing numbers, numeric text and text per block, free-text terms that are numbers"
+			if p == "c02" {
+				rule += "; every single numeric comparison once in the search clause and once as a where stage"
+			}
+		}
 		if p == "c01" || p == "c03" || p == "c04" {
 			gen = func(r *rand.Rand, n int, tier string) []string { return genE2EV2(r, n, tier, p) }
 			rule += "; event times uniform / clustered with outlier blocks (block time ranges not monotonic) / on a grid; query windows whole, cutting, or snapped onto event timestamps (±1)"
@@ -45,7 +54,7 @@ func init() {
 			case "c03":
 				rule += "; persistent-query results on/off per layout, the same filter run again over other windows (narrow around the cluster, then wide) with waits for the background persistent-query write, queries inside the history"
 			case "c04":
-				rule += "; stats and first-stage timechart (span, count/sum/min/max/avg/dc, by-field) with events exactly on the query bounds and on cell edges; distinct counts and group keys over integers beyond 2^53 that differ in their low bits"
+				rule += "; stats and first-stage timechart (span, count/sum/min/max/avg/dc, by-field) with events exactly on the query bounds and on cell edges; distinct counts and group keys over integers beyond 2^53 that differ in their low bits; count(field), avg, sum, min, max over sparse measure fields and over a column holding numbers, numeric text and text per block; the same stats / timechart behind another command (stats and timechart PROCESSORS of the pipeline: same groups, same series names); events still in the write buffer when the queries run (search, stats and stats by must agree on them)"
 			}
 		}
 		register(&Suite{Name: "e2e_" + p, Parallel: 6, Gen: gen, Exec: execE2E, Rule: rule})
@@ -92,6 +101,9 @@ func genPqsBoot(r *rand.Rand, n int, tier string) []string {
 // the grammar of the engine's utils.FastParseFloat
 var e2eNumStrRe = regexp.MustCompile(`^[+-]?([0-9]+(\.[0-9]*)?|\.[0-9]+)([eE][+-]?[0-9]+)?$`)
 
+// strings on both sides of the border of the grammar (all numeric ones exactly representable)
+var e2eNumEdge = []string{"+5", "1E2", "5.", ".5", "007", "-0", "+.5e1", "1e1", "2.50", "1E+2", "1e", "1e+", "-", "e5", "0x10", "12a", "nan", "1_000", "5 ", "٥"}
+
 type kv struct{ k, tv string }
 type e2eEvent struct {
 	vid    int
@@ -111,6 +123,10 @@ func dyadic(r *rand.Rand) string {
 }
 
 func hexs(s string) string { return hex.EncodeToString([]byte(s)) }
+func unhexs(h string) string {
+	b, _ := hex.DecodeString(h)
+	return string(b)
+}
 
 func genEvent(r *rand.Rand, vid int, ts uint64, profile string, late bool) e2eEvent {
 	e := e2eEvent{vid: vid, ts: ts}
@@ -137,14 +153,28 @@ func genEvent(r *rand.Rand, vid int, ts uint64, profile string, late bool) e2eEv
 		add("s", "s"+hexs(vocab[r.Intn(len(vocab))]))
 	}
 	if r.Intn(3) == 0 {
-		if r.Intn(2) == 0 {
+		switch r.Intn(5) {
+		case 0, 1:
 			add("ns", "s"+hexs(strconv.Itoa(r.Intn(9))))
-		} else {
+		case 2, 3:
 			add("ns", "s"+hexs(dyadic(r)))
+		default: // the edges of the number grammar: numbers for the engine (+5, 1E2, 5., .5, 007, -0, +.5e1) and text (1e, -, e5, 0x10, 12a, nan, 1_000)
+			add("ns", "s"+hexs(e2eNumEdge[r.Intn(len(e2eNumEdge))]))
 		}
 	}
 	if r.Intn(4) == 0 {
 		add("x", fmt.Sprintf("i%d", r.Intn(5)))
+	}
+	if (profile == "c02" || profile == "c03") && r.Intn(3) == 0 {
+		// a column mixing numbers, numeric text and text: what a value is stored as depends on what else its block holds
+		switch r.Intn(4) {
+		case 0, 1:
+			add("mt", fmt.Sprintf("i%d", r.Intn(9)))
+		case 2:
+			add("mt", "s"+hexs([]string{"5", "5.0", "07", "3", "+2", "1e0", "8"}[r.Intn(7)]))
+		default:
+			add("mt", "s"+hexs([]string{"abc", "n/a", "5x"}[r.Intn(3)]))
+		}
 	}
 	if r.Intn(4) == 0 {
 		add("b", fmt.Sprintf("b%d", r.Intn(2)))
@@ -211,6 +241,9 @@ func genCmpK(r *rand.Rand, profile string, k int) string {
 		}
 		return "t:" + hexs(w)
 	}
+	if (profile == "c02" || profile == "c03") && r.Intn(5) == 0 {
+		return genCmpLit(r)
+	}
 	switch k {
 	case 0, 1:
 		return fmt.Sprintf("c:i:%s:i%d", ops[r.Intn(6)], r.Intn(26)-5)
@@ -244,6 +277,44 @@ func genCmpK(r *rand.Rand, profile string, k int) string {
 		default:
 			return fmt.Sprintf("c:g:%s:w%s", ops[r.Intn(2)], hexs([]string{"red", "green", "blue", "RED"}[r.Intn(4)]))
 		}
+	}
+}
+
+// comparisons whose literal and column are of different kinds (only = and != exist for string literals):
+// a QUOTED number against numbers / numeric text / text, text against numbers and booleans, wildcards against numbers,
+// numbers against the edge strings of column ns, and free-text terms that are numbers
+func genCmpLit(r *rand.Rand) string {
+	eqne := []string{"eq", "ne"}[r.Intn(2)]
+	ops := []string{"eq", "ne", "lt", "le", "gt", "ge"}
+	switch r.Intn(12) {
+	case 9: // the mixed column against a quoted number
+		return fmt.Sprintf("c:mt:%s:s%s", eqne, hexs([]string{"5", "5.0", "3", "7", "07", "8"}[r.Intn(6)]))
+	case 10: // … against a number
+		return fmt.Sprintf("c:mt:%s:i%d", ops[r.Intn(6)], r.Intn(9))
+	case 11: // … against text
+		return fmt.Sprintf("c:mt:%s:s%s", eqne, hexs([]string{"abc", "n/a", "5x", "zzz"}[r.Intn(4)]))
+	case 0: // "7" against the integer column
+		return fmt.Sprintf("c:i:%s:s%s", eqne, hexs(strconv.Itoa(r.Intn(26)-5)))
+	case 1: // "2.5" / "3" / "3.0" / "+3" against the int-and-decimal column
+		return fmt.Sprintf("c:m:%s:s%s", eqne, hexs([]string{dyadic(r), strconv.Itoa(r.Intn(12)), strconv.Itoa(r.Intn(12)) + ".0", "+" + strconv.Itoa(r.Intn(12))}[r.Intn(4)]))
+	case 2: // quoted number against numeric text (also written differently: 5 / 5.0 / 05)
+		return fmt.Sprintf("c:ns:%s:s%s", eqne, hexs([]string{strconv.Itoa(r.Intn(9)), strconv.Itoa(r.Intn(9)) + ".0", "0" + strconv.Itoa(r.Intn(9)), dyadic(r), "100", "7"}[r.Intn(6)]))
+	case 3: // number literal against the edge strings
+		return fmt.Sprintf("c:ns:%s:%s", ops[r.Intn(6)], []string{"i5", "i100", "d0.5", "i7", "i0", "i10", "d2.5"}[r.Intn(7)])
+	case 4: // text against numbers
+		col := []string{"i", "m", "f", "x"}[r.Intn(4)]
+		if r.Intn(3) == 0 { // unquoted word
+			return fmt.Sprintf("c:%s:%s:w%s", col, eqne, hexs([]string{"abc", "xyz"}[r.Intn(2)]))
+		}
+		return fmt.Sprintf("c:%s:%s:s%s", col, eqne, hexs([]string{"abc", "xyz", "n/a", "1e", "12a"}[r.Intn(5)]))
+	case 5: // text against booleans
+		return fmt.Sprintf("c:b:%s:%s%s", eqne, []string{"s", "w"}[r.Intn(2)], hexs([]string{"true", "false", "abc", "TRUE"}[r.Intn(4)]))
+	case 6: // wildcard against numbers
+		return fmt.Sprintf("c:%s:%s:w%s", []string{"i", "m", "x"}[r.Intn(3)], eqne, hexs([]string{"1*", "*5", "*", "2*"}[r.Intn(4)]))
+	case 7: // quoted number against text
+		return fmt.Sprintf("c:s:%s:s%s", eqne, hexs(strconv.Itoa(r.Intn(9))))
+	default: // free-text term that is a number
+		return "t:" + hexs([]string{"3", "7", "12", "2.5", "-1", "0", "5"}[r.Intn(7)])
 	}
 }
 
@@ -382,6 +453,14 @@ func genE2E(r *rand.Rand, n int, tier, profile string) []string {
 					fl = "all"
 				}
 				toks = append(toks, fmt.Sprintf("q/0/1000/%d/%d/%s", s, e, fl))
+				if profile == "c02" {
+					// the same comparison once in the search clause (above) and once as a where stage (C02: they agree on numeric fields)
+					if p := strings.Split(fl, ":"); len(p) == 4 && p[0] == "c" && !strings.Contains(fl, ",") && (p[3][0] == 'i' || p[3][0] == 'd' || (p[3][0] == 's' && e2eNumStrRe.MatchString(unhexs(p[3][1:])))) && r.Intn(2) == 0 {
+						if p[3][0] != 's' || p[2] == "eq" || p[2] == "ne" {
+							toks = append(toks, fmt.Sprintf("q/0/1000/%d/%d/all/where:%s:%s:%s", s, e, p[1], p[2], p[3]))
+						}
+					}
+				}
 			case "c04":
 				aggsAll := []string{"count", "sum.i", "min.i", "max.i", "avg.i", "sum.f", "min.f", "max.f", "avg.f", "sum.i", "max.f", "min.i", "count", "avg.f", "count", "sum.m", "max.m", "min.x", "avg.x"}
 				na := 1 + r.Intn(3)
@@ -429,7 +508,6 @@ func genE2E(r *rand.Rand, n int, tier, profile string) []string {
 	return out
 }
 
-
 // ---------------------------------------------------------------- generator, second generation (profiles c01, c03, c04)
 
 // numeric-looking strings of many shapes (all exactly representable, all accepted by utils.FastParseFloat)
@@ -443,9 +521,10 @@ type e2eGen struct {
 	step    uint64 // grid
 	clLo    uint64 // cluster
 	clW     uint64
-	outlier bool  // current block carries outliers
-	tMode   int   // c01: what column t holds in the current block
-	useBig  bool  // c04: column big (integers beyond 2^53 differing in low bits)
+	outlier bool // current block carries outliers
+	tMode   int  // c01: what column t holds in the current block
+	mxMode  int  // c04: what column mx holds in the current block
+	useBig  bool // c04: column big (integers beyond 2^53 differing in low bits)
 	bigBase []int64
 	clTs    []uint64 // timestamps drawn inside the cluster
 	allTs   []uint64
@@ -455,6 +534,9 @@ func (g *e2eGen) newBlock() {
 	r := g.r
 	g.outlier = r.Intn(3) == 0
 	g.tMode = []int{0, 0, 0, 1, 1, 2, 2, 3, 4, 5}[r.Intn(10)]
+	if g.profile == "c04" {
+		g.mxMode = r.Intn(4)
+	}
 }
 
 func (g *e2eGen) ts() uint64 {
@@ -528,6 +610,22 @@ func (g *e2eGen) event(vid int, late bool) e2eEvent {
 	}
 	if g.useBig && r.Intn(5) != 0 {
 		add("big", fmt.Sprintf("i%d", g.bigBase[r.Intn(len(g.bigBase))]+int64(r.Intn(6))))
+	}
+	if g.profile == "c04" && r.Intn(3) != 0 {
+		// measure column of mixed type: numbers, numeric text (a number for every aggregate) and text, per block mode
+		// (numbers only / numeric text only / numbers + numeric text / everything)
+		num := func() string { return fmt.Sprintf("i%d", r.Intn(40)-8) }
+		nstr := func() string { return "s" + hexs(e2eNumLooking[r.Intn(len(e2eNumLooking))]) }
+		switch g.mxMode {
+		case 0:
+			add("mx", num())
+		case 1:
+			add("mx", nstr())
+		case 2:
+			add("mx", []string{num(), nstr()}[r.Intn(2)])
+		default:
+			add("mx", []string{num(), nstr(), "s" + hexs([]string{"abc", "n/a", "1e", "-"}[r.Intn(4)])}[r.Intn(3)])
+		}
 	}
 	return e
 }
@@ -681,6 +779,21 @@ func genE2EV2(r *rand.Rand, n int, tier, profile string) []string {
 		} else {
 			toks = append(toks, "fl")
 		}
+		unflushed := false
+		if profile == "c04" && r.Intn(6) == 0 {
+			// events still in the write buffer when the queries run: whether they are visible is the engine's choice, but the
+			// search, the stats and the stats by must make the same choice
+			for k := 1 + r.Intn(3); k > 0; k-- {
+				nev++
+				e := g.event(nev, nev >= lateFrom)
+				if e.ts > maxTs {
+					maxTs = e.ts
+				}
+				toks = append(toks, e.token())
+			}
+			toks = append(toks, "send")
+			unflushed = true
+		}
 		if profile == "c03" {
 			// the SAME events under a second, different layout (batching, flush/rotate placement, dictionary limit, persistent-query results)
 			toks = append(toks, "H2")
@@ -783,6 +896,11 @@ func genE2EV2(r *rand.Rand, n int, tier, profile string) []string {
 				}
 			}
 		case "c04":
+			if unflushed {
+				ws, we := whole()
+				toks = append(toks, fmt.Sprintf("q/0/1000/%d/%d/all", ws, we), fmt.Sprintf("q/0/1000/%d/%d/all/stats:count:-", ws, we),
+					fmt.Sprintf("q/0/1000/%d/%d/all/stats:count:s", ws, we), fmt.Sprintf("q/0/1000/%d/%d/all/pstats:count:s", ws, we))
+			}
 			nq := 3 + r.Intn(6)
 			for q := 0; q < nq; q++ {
 				s, e := g.window(maxTs)
@@ -812,18 +930,28 @@ func genE2EV2(r *rand.Rand, n int, tier, profile string) []string {
 					if r.Intn(4) == 0 && e > s && e-s > span {
 						e = s + (e-s)/span*span // the end bound on the grid
 					}
-					all := []string{"count", "count", "sum.i", "avg.f", "min.i", "max.f", "max.i", "sum.f", "dc.i", "dc.s", "avg.i"}
+					// (sparse measure fields x, m: count(x) and avg(x) are over the events that HAVE the field; mx: mixed type)
+					all := []string{"count", "count", "sum.i", "avg.f", "min.i", "max.f", "max.i", "sum.f", "dc.i", "dc.s", "avg.i",
+						"avg.x", "avg.m", "cnt.x", "cnt.m", "cnt.g", "sum.x", "avg.mx", "sum.mx", "cnt.mx", "min.mx", "max.mx"}
 					if g.useBig {
 						all = append(all, "dc.big", "dc.big")
 					}
 					by := "-"
 					if r.Intn(5) < 2 {
 						by = []string{"g", "s", "x", "b"}[r.Intn(4)]
+						if nev <= 8 && r.Intn(3) == 0 {
+							by = "f" // decimal series names (at most 10 series are listed by default, hence few events only)
+						}
 					}
-					toks = append(toks, fmt.Sprintf("q/0/1000/%d/%d/%s/tc:%d:%s:%s", s, e, f, span, strings.Join(pick(all, 1+r.Intn(2)), "+"), by))
+					stage := "tc"
+					if r.Intn(3) == 0 {
+						stage = "ptc" // the timechart PROCESSOR (a command precedes it): same answer, same series names
+					}
+					toks = append(toks, fmt.Sprintf("q/0/1000/%d/%d/%s/%s:%d:%s:%s", s, e, f, stage, span, strings.Join(pick(all, 1+r.Intn(2)), "+"), by))
 					continue
 				}
-				all := []string{"count", "sum.i", "min.i", "max.i", "avg.i", "sum.f", "min.f", "max.f", "avg.f", "sum.i", "max.f", "min.i", "count", "avg.f", "count", "sum.m", "max.m", "min.x", "avg.x", "dc.i", "dc.s", "dc.x", "dc.f"}
+				all := []string{"count", "sum.i", "min.i", "max.i", "avg.i", "sum.f", "min.f", "max.f", "avg.f", "sum.i", "max.f", "min.i", "count", "avg.f", "count", "sum.m", "max.m", "min.x", "avg.x", "dc.i", "dc.s", "dc.x", "dc.f",
+					"cnt.x", "cnt.m", "cnt.g", "cnt.x", "sum.mx", "avg.mx", "min.mx", "max.mx", "cnt.mx", "sum.ns", "avg.ns", "cnt.ns"}
 				if g.useBig {
 					all = append(all, "dc.big", "dc.big", "dc.big", "min.big", "max.big")
 				}
@@ -842,7 +970,11 @@ func genE2EV2(r *rand.Rand, n int, tier, profile string) []string {
 				if g.useBig && r.Intn(5) == 0 {
 					by = "big"
 				}
-				toks = append(toks, fmt.Sprintf("q/0/1000/%d/%d/%s/stats:%s:%s", s, e, f, strings.Join(pick(all, 1+r.Intn(3)), "+"), by))
+				stage := "stats"
+				if r.Intn(4) == 0 {
+					stage = "pstats"
+				}
+				toks = append(toks, fmt.Sprintf("q/0/1000/%d/%d/%s/%s:%s:%s", s, e, f, stage, strings.Join(pick(all, 1+r.Intn(3)), "+"), by))
 			}
 		}
 		out = append(out, strings.Join(toks, " "))
@@ -1005,6 +1137,8 @@ type e2eQuery struct {
 	bys        []string
 	pageSize   int
 	span       uint64 // tc: cell width in ms
+	proc       bool   // pstats / ptc
+	where      bool
 }
 
 func parseE2EQuery(tok string) (q e2eQuery, ok bool) {
@@ -1041,7 +1175,21 @@ func parseE2EQuery(tok string) (q e2eQuery, ok bool) {
 			if q.pageSize, err = strconv.Atoi(sp[1]); err != nil || q.pageSize < 1 {
 				return
 			}
-		case (sp[0] == "stats" && len(sp) == 3) || (sp[0] == "tc" && len(sp) == 4):
+		case sp[0] == "where" && len(sp) == 4:
+			lit, ok1 := litToSPL(sp[3])
+			op, ok2 := map[string]string{"eq": "=", "ne": "!=", "lt": "<", "le": "<=", "gt": ">", "ge": ">="}[sp[2]]
+			if !ok1 || !ok2 || sp[1] == "" {
+				return q, false
+			}
+			q.spl += " | where " + sp[1] + op + lit
+			q.where = true
+		case ((sp[0] == "stats" || sp[0] == "pstats") && len(sp) == 3) || ((sp[0] == "tc" || sp[0] == "ptc") && len(sp) == 4):
+			if sp[0][0] == 'p' {
+				// any command in front makes the pipeline hand the records to the stats / timechart processor
+				sp[0] = sp[0][1:]
+				q.spl += " | eval verif_pp=1"
+				q.proc = true
+			}
 			q.kind = "stats"
 			if sp[0] == "tc" {
 				q.kind = "tc"
@@ -1055,6 +1203,8 @@ func parseE2EQuery(tok string) (q e2eQuery, ok bool) {
 				ap := strings.SplitN(a, ".", 2)
 				if ap[0] == "count" && len(ap) == 1 {
 					as = append(as, "count")
+				} else if len(ap) == 2 && ap[0] == "cnt" && ap[1] != "" {
+					as = append(as, "count("+ap[1]+")")
 				} else if len(ap) == 2 && (ap[0] == "sum" || ap[0] == "min" || ap[0] == "max" || ap[0] == "avg" || ap[0] == "dc") {
 					as = append(as, ap[0]+"("+ap[1]+")")
 				} else {
@@ -1232,6 +1382,7 @@ func execE2ELayout(f []string) Result {
 	var batch []string
 	var evTs []uint64
 	nev := 0
+	unflushed := 0 // events sent since the last flush
 	for ; i < len(f) && f[i] != "Q"; i++ {
 		t := f[i]
 		switch {
@@ -1239,11 +1390,14 @@ func execE2ELayout(f []string) Result {
 			if len(batch) > 0 {
 				fmt.Fprintf(&in, "batch %s\n", strings.Join(batch, " "))
 			}
+			unflushed += len(batch)
 			batch = nil
 		case t == "fl":
 			in.WriteString("flush\n")
+			unflushed = 0
 		case t == "ro":
 			in.WriteString("rotate\n")
+			unflushed = 0
 		case strings.HasPrefix(t, "rq/"):
 			spl, ok := filterToSPL(t[3:])
 			if !ok {
@@ -1270,6 +1424,13 @@ func execE2ELayout(f []string) Result {
 						return Result{Out: "bad-op"}
 					}
 					fields = append(fields, kv{y[0], y[1]})
+					if strings.HasPrefix(y[1], "s") && y[0] == "ns" {
+						for _, ed := range e2eNumEdge {
+							if y[1][1:] == hexs(ed) {
+								tagSet["numeric-text-at-the-edge-of-the-number-grammar"] = true
+							}
+						}
+					}
 				}
 			}
 			js, ok := eventJSON(vid, ts, fields, vid%2 == 0)
@@ -1285,6 +1446,9 @@ func execE2ELayout(f []string) Result {
 	}
 	if i >= len(f) {
 		return Result{Out: "bad-op"}
+	}
+	if unflushed > 0 {
+		tagSet["unflushed-events-at-query-time"] = true
 	}
 	var qs []e2eQuery
 	nAnswers := 0
@@ -1517,6 +1681,9 @@ func execE2ELayout(f []string) Result {
 			segs = append(segs, "kind=stats rows="+strings.Join(rows, ","))
 		}
 	}
+	if unflushed > 0 {
+		pqFails = append(pqFails, e2eUnflushedConsistency(qs, segs)...)
+	}
 	tags := []string{fmt.Sprintf("events<=%d", (nev/10+1)*10), fmt.Sprintf("queries=%d", len(qs))}
 	for _, t := range e2eHistoryTags(f) {
 		tagSet[t] = true
@@ -1526,6 +1693,78 @@ func execE2ELayout(f []string) Result {
 	}
 	sort.Strings(tags[2:])
 	return Result{Out: strings.Join(segs, " | "), Fails: pqFails, Nontrivial: nev >= 3 && len(qs) >= 1, Tags: tags}
+}
+
+// Events that are still in the write buffer when the queries run: the statements speak about flushed buffers only, the
+// engine may show such events or not — but a match-all search, `* | stats count` and `* | stats count by <dense field>` over
+// the same range must agree on how many events there are (C04: aggregates are over exactly the matched events; C03: the
+// open buffer is one more physical organisation).  Checked on the answers of one engine process, independent of the model.
+func e2eUnflushedConsistency(qs []e2eQuery, segs []string) []PropFail {
+	type cnts struct{ ids, stats, by, pby int }
+	per := map[string]*cnts{}
+	get := func(q e2eQuery) *cnts {
+		k := fmt.Sprintf("%d/%d", q.start, q.end)
+		if per[k] == nil {
+			per[k] = &cnts{-1, -1, -1, -1}
+		}
+		return per[k]
+	}
+	sumRows := func(seg string) int {
+		n := 0
+		for _, r := range strings.Split(strings.TrimPrefix(seg, "kind=stats rows="), ",") {
+			if k := strings.LastIndex(r, "="); k >= 0 {
+				v, err := strconv.Atoi(r[k+1:])
+				if err != nil {
+					return -2
+				}
+				n += v
+			}
+		}
+		return n
+	}
+	for qi, q := range qs {
+		if qi >= len(segs) || q.from != 0 {
+			continue
+		}
+		c := get(q)
+		switch q.spl {
+		case "*":
+			if strings.HasPrefix(segs[qi], "kind=ids ids=") {
+				c.ids = 0
+				if rest := strings.TrimPrefix(segs[qi], "kind=ids ids="); rest != "" {
+					c.ids = len(strings.Split(rest, ","))
+				}
+			}
+		case "* | stats count":
+			if strings.HasPrefix(segs[qi], "kind=stats rows=") {
+				c.stats = sumRows(segs[qi])
+			}
+		case "* | stats count by s":
+			if strings.HasPrefix(segs[qi], "kind=stats rows=") {
+				c.by = sumRows(segs[qi])
+			}
+		case "* | eval verif_pp=1 | stats count by s":
+			if strings.HasPrefix(segs[qi], "kind=stats rows=") {
+				c.pby = sumRows(segs[qi])
+			}
+		}
+	}
+	var fails []PropFail
+	for w, c := range per {
+		var seen []int
+		for _, v := range []int{c.ids, c.stats, c.by, c.pby} {
+			if v >= 0 {
+				seen = append(seen, v)
+			}
+		}
+		for _, v := range seen {
+			if v != seen[0] {
+				fails = append(fails, PropFail{Sig: "e2e/unflushed/search-and-stats-disagree", Msg: fmt.Sprintf("with events in the write buffer, over the range %s: match-all returns %d events, `stats count` %d, `stats count by s` %d in all groups, the stats processor %d (-1 = not asked)", w, c.ids, c.stats, c.by, c.pby)})
+				break
+			}
+		}
+	}
+	return fails
 }
 
 // display name of an aggregation in the engine's response
@@ -1618,6 +1857,40 @@ func e2eQueryTags(tok string, q e2eQuery, evTs []uint64, seenFilter map[string]s
 		}
 		if q.kind == "tc" && ts > q.start && ts < q.end && (ts-q.start)%q.span == 0 {
 			tags["tc-event-on-cell-edge"] = true
+		}
+	}
+	if q.proc {
+		tags["stats/timechart-processor-path"] = true
+	}
+	if q.where {
+		tags["where-stage"] = true
+	}
+	for _, it := range strings.Split(p[5], ",") {
+		ip := strings.Split(it, ":")
+		if len(ip) == 4 && ip[0] == "c" && len(ip[3]) > 0 {
+			col, lit := ip[1], ip[3]
+			quotedNum := lit[0] == 's' && e2eNumStrRe.MatchString(unhexs(lit[1:]))
+			switch {
+			case quotedNum:
+				tags["filter:quoted-number-literal"] = true
+			case (lit[0] == 's' || lit[0] == 'w') && (col == "i" || col == "m" || col == "f" || col == "x" || col == "b"):
+				tags["filter:text-literal-vs-number-or-bool"] = true
+			case col == "mt":
+				tags["filter:column-mixing-numbers-and-text"] = true
+			case col == "ns" && (lit[0] == 'i' || lit[0] == 'd'):
+				tags["filter:number-vs-numeric-text"] = true
+			}
+		}
+		if len(ip) == 2 && ip[0] == "t" && e2eNumStrRe.MatchString(unhexs(ip[1])) {
+			tags["filter:numeric-free-text-term"] = true
+		}
+	}
+	for _, a := range q.aggs {
+		if strings.HasPrefix(a, "count(") {
+			tags["count-of-field"] = true
+		}
+		if strings.HasSuffix(a, "(mx)") || strings.HasSuffix(a, "(ns)") {
+			tags["measure-over-mixed-or-numeric-text-column"] = true
 		}
 	}
 	if q.kind == "tc" {
